@@ -452,7 +452,7 @@ Proof.
   assert (length (pt b k cl) = n) as Hl.
   { rewrite pt_length; [assumption | congruence | intros; congruence]. }
   rewrite Hl. apply gm_pre_floor; [apply pt_perfect; assumption|]. rewrite Hl.
-  unfold gm_weights. destruct hw as [w|]; [rewrite map_length; apply Hw; reflexivity|].
+  unfold gm_weights. destruct hw as [w|]; [unfold int_weights; rewrite map_length; apply Hw; reflexivity|].
   apply repeat_length.
 Qed.
 
